@@ -1,1 +1,1064 @@
-//! (stub)
+//! Hand assembler for `.debug_frame`, `.eh_frame` and `.eh_frame_hdr` with a field map and
+//! the model of what was encoded.  Written independently of `gimli::write`.
+//!
+//! # Public API (used by C05, C06; meant for reuse by C14 and C20)
+//!
+//! Instructions:
+//! * [`Ins`] — one call-frame instruction *with its encoding choice* (inline / extended /
+//!   loc1/2/4 ...), every DW_CFA opcode, plus [`Ins::Raw`] for bytes that must be rejected.
+//!   [`Ins::for_opcode_byte`] maps each of the 256 opcode bytes to an instruction with the
+//!   given operands.  `emit` appends the bytes and returns the model instruction
+//!   ([`crate::model::cfi::Insn`]).
+//!
+//! Sections:
+//! * [`SectionSpec`] `{ kind, le, addr_size, aarch64, bases, items }` with
+//!   [`Item`]`::{Cie(CieSpec), Fde(FdeSpec), ZeroLength{fmt64}, Junk(bytes)}`.
+//! * [`CieSpec`] — version 1/3/4, 32/64-bit entry, raw augmentation string (any subset and
+//!   order of `zLPRS`, or deliberately malformed), v4 address/segment size, factors, return
+//!   register, encodings for L/P/R, personality raw value, initial instructions, padding.
+//! * [`FdeSpec`] — index of its CIE item, initial address (target, encoded under the CIE's
+//!   'R' encoding) and range, LSDA target, instructions, padding.
+//! * [`build`]`(&SectionSpec)` → [`Built`] `{ bytes, fields, entries }`; [`Entry`] is the
+//!   model of one entry ([`CieModel`] / [`FdeModel`]): offsets, lengths and every decoded
+//!   field, computed with `model::cfi::pe_decode` on the emitted bytes.
+//! * [`Built::program`] — the `model::cfi::Program` of one FDE (for the row interpreter).
+//!
+//! `.eh_frame_hdr`:
+//! * [`HdrSpec`] + [`build_hdr`] → [`HdrBuilt`] (bytes, decoded eh_frame_ptr, decoded sorted
+//!   table) for every pointer encoding of the three header fields.
+//!
+//! Pointer encoding helpers: [`pe_encode_raw`] (emit a raw value in a format),
+//! [`pe_encode_target`] (find the raw value that decodes to a target under a base, if the
+//! format can represent it), [`aug_strings`] (the 65 strings `z` + permutation of a subset
+//! of `LPRS`).
+
+use crate::asm::{sleb_bytes, uleb_bytes, Asm, Field, FieldKind};
+use crate::model::cfi::{self as m, addr_mask, Bases, CfiError, Insn, PeErr, Ptr};
+
+// ---------------------------------------------------------------- pointer encoding (emit)
+
+/// Emit `raw` in the format nibble of `enc` (truncating to the width). LEB formats take the
+/// value as u64 (uleb) / i64 (sleb).
+pub fn pe_encode_raw(enc: u8, raw: u64, le: bool, addr_size: u8) -> Vec<u8> {
+    let mut a = Asm::new(le);
+    match enc & 0x0f {
+        0x00 => {
+            a.uint((addr_size as usize).min(8), raw);
+        }
+        0x01 => {
+            a.uleb(raw);
+        }
+        0x02 | 0x0a => {
+            a.uint(2, raw);
+        }
+        0x03 | 0x0b => {
+            a.uint(4, raw);
+        }
+        0x04 | 0x0c => {
+            a.uint(8, raw);
+        }
+        0x09 => {
+            a.sleb(raw as i64);
+        }
+        // unknown formats: emit 8 bytes so that a (wrong) acceptance has something to read
+        _ => {
+            a.uint(8, raw);
+        }
+    }
+    a.buf
+}
+
+/// Base address an encoding applies, for a pointer field at section offset `pos`.
+/// `Err` when the base is missing / the application is unsupported.
+pub fn pe_base(enc: u8, pos: u64, bases: &Bases, addr_size: u8) -> Result<u64, PeErr> {
+    match (enc >> 4) & 7 {
+        0 => Ok(0),
+        1 => Ok(bases.section.ok_or(PeErr::NoSectionBase)?.wrapping_add(pos) & addr_mask(addr_size)),
+        2 => bases.text.ok_or(PeErr::NoTextBase),
+        3 => bases.data.ok_or(PeErr::NoDataBase),
+        4 => bases.func.ok_or(PeErr::NoFuncBase),
+        _ => Err(PeErr::Unsupported(enc)),
+    }
+}
+
+/// Bytes that decode to `target` (mod 2^address bits) under `enc` at `pos`, or `None` when
+/// the base is missing or the format cannot represent the needed offset.
+pub fn pe_encode_target(enc: u8, target: u64, le: bool, pos: u64, bases: &Bases, addr_size: u8) -> Option<Vec<u8>> {
+    if !m::pe_is_valid(enc) || enc == m::PE_OMIT {
+        return None;
+    }
+    let base = pe_base(enc, pos, bases, addr_size).ok()?;
+    let mask = addr_mask(addr_size);
+    let abits = 8 * (addr_size as u32).min(8);
+    if abits == 0 {
+        return None;
+    }
+    let raw = target.wrapping_sub(base) & mask;
+    // signed view of raw as an abits-bit number
+    let sraw: i64 = if abits >= 64 { raw as i64 } else if raw >> (abits - 1) & 1 == 1 { (raw | !mask) as i64 } else { raw as i64 };
+    let fmt = enc & 0x0f;
+    let (w, signed) = match fmt {
+        0x00 => (abits, false),
+        0x01 => (64, false),
+        0x02 => (16, false),
+        0x03 => (32, false),
+        0x04 => (64, false),
+        0x09 => (64, true),
+        0x0a => (16, true),
+        0x0b => (32, true),
+        0x0c => (64, true),
+        _ => return None,
+    };
+    if w < abits {
+        if signed {
+            let lo = -(1i64 << (w - 1));
+            let hi = (1i64 << (w - 1)) - 1;
+            if sraw < lo || sraw > hi {
+                return None;
+            }
+        } else if raw >> w != 0 {
+            return None;
+        }
+    }
+    let v = if signed { sraw as u64 } else { raw };
+    Some(pe_encode_raw(enc, v, le, addr_size))
+}
+
+fn encode_ptr(raw_mode: bool, enc: u8, target: u64, le: bool, pos: u64, bases: &Bases, addr_size: u8) -> Vec<u8> {
+    if !raw_mode {
+        if let Some(b) = pe_encode_target(enc, target, le, pos, bases, addr_size) {
+            return b;
+        }
+    }
+    pe_encode_raw(enc, target, le, addr_size)
+}
+
+/// `z` followed by every permutation of every subset of `LPRS` (65 strings).
+pub fn aug_strings() -> Vec<Vec<u8>> {
+    let letters = [b'L', b'P', b'R', b'S'];
+    let mut out: Vec<Vec<u8>> = vec![];
+    // iterative enumeration of arrangements
+    let mut stack: Vec<Vec<u8>> = vec![vec![]];
+    while let Some(cur) = stack.pop() {
+        let mut s = vec![b'z'];
+        s.extend_from_slice(&cur);
+        out.push(s);
+        for l in letters {
+            if !cur.contains(&l) {
+                let mut n = cur.clone();
+                n.push(l);
+                stack.push(n);
+            }
+        }
+    }
+    out.sort();
+    out
+}
+
+// ---------------------------------------------------------------- instructions
+
+#[derive(Clone, Debug, PartialEq, Eq)]
+pub enum Ins {
+    /// DW_CFA_advance_loc, delta < 0x40 in the opcode byte
+    AdvanceLoc(u8),
+    AdvanceLoc1(u8),
+    AdvanceLoc2(u16),
+    AdvanceLoc4(u32),
+    /// DW_CFA_set_loc to this target address (encoded as the context demands: plain address,
+    /// or the CIE's 'R' encoding inside an FDE; falls back to truncation if unrepresentable)
+    SetLoc(u64),
+    /// DW_CFA_offset, register < 0x40 in the opcode byte
+    Offset(u8, u64),
+    OffsetExtended(u64, u64),
+    OffsetExtendedSf(u64, i64),
+    /// DW_CFA_restore, register < 0x40 in the opcode byte
+    Restore(u8),
+    RestoreExtended(u64),
+    Undefined(u64),
+    SameValue(u64),
+    Register(u64, u64),
+    RememberState,
+    RestoreState,
+    DefCfa(u64, u64),
+    DefCfaSf(u64, i64),
+    DefCfaRegister(u64),
+    DefCfaOffset(u64),
+    DefCfaOffsetSf(i64),
+    DefCfaExpression(Vec<u8>),
+    Expression(u64, Vec<u8>),
+    ValExpression(u64, Vec<u8>),
+    ValOffset(u64, u64),
+    ValOffsetSf(u64, i64),
+    ArgsSize(u64),
+    /// opcode 0x2d: DW_CFA_AARCH64_negate_ra_state under the AArch64 vendor, unknown otherwise
+    NegateRaState,
+    Nop,
+    /// arbitrary bytes that the decoder must reject with `expect`
+    Raw { bytes: Vec<u8>, expect: CfiError },
+}
+
+/// Context of an instruction stream.
+#[derive(Clone, Copy, Debug)]
+pub struct EmitEnv {
+    pub in_fde: bool,
+    /// the CIE's 'R' encoding (applies to set_loc inside FDEs only)
+    pub fde_enc: Option<u8>,
+    pub addr_size: u8,
+    pub le: bool,
+    pub bases: Bases,
+    pub aarch64: bool,
+}
+
+fn reg(r: u64) -> Result<u16, CfiError> {
+    if r > 0xffff {
+        Err(CfiError::UnsupportedRegister(r))
+    } else {
+        Ok(r as u16)
+    }
+}
+
+impl Ins {
+    /// Append the encoding to `a`; returns the model instruction.
+    pub fn emit(&self, a: &mut Asm, env: &EmitEnv) -> Insn {
+        macro_rules! r {
+            ($e:expr) => {
+                match reg($e) {
+                    Ok(x) => x,
+                    Err(e) => return Insn::Invalid(e),
+                }
+            };
+        }
+        let op = |a: &mut Asm, b: u8| {
+            a.f_uint(FieldKind::Opcode, "cfa_opcode", 1, b as u64);
+        };
+        match self {
+            Ins::AdvanceLoc(d) => {
+                op(a, 0x40 | (d & 0x3f));
+                Insn::AdvanceLoc((d & 0x3f) as u32)
+            }
+            Ins::AdvanceLoc1(d) => {
+                op(a, 0x02);
+                a.u8(*d);
+                Insn::AdvanceLoc(*d as u32)
+            }
+            Ins::AdvanceLoc2(d) => {
+                op(a, 0x03);
+                a.u16(*d);
+                Insn::AdvanceLoc(*d as u32)
+            }
+            Ins::AdvanceLoc4(d) => {
+                op(a, 0x04);
+                a.u32(*d);
+                Insn::AdvanceLoc(*d)
+            }
+            Ins::SetLoc(target) => {
+                op(a, 0x01);
+                let pos = a.len() as u64;
+                let enc = if env.in_fde { env.fde_enc } else { None };
+                match enc {
+                    None => {
+                        a.f_uint(FieldKind::Address, "set_loc", (env.addr_size as usize).min(8), *target);
+                        Insn::SetLoc(Ok(*target & addr_mask(env.addr_size)))
+                    }
+                    Some(e) => {
+                        // no function base inside instruction streams
+                        let b = Bases { func: None, ..env.bases };
+                        let bytes = pe_encode_target(e, *target, env.le, pos, &b, env.addr_size)
+                            .unwrap_or_else(|| pe_encode_raw(e, *target, env.le, env.addr_size));
+                        a.f_bytes(FieldKind::Address, "set_loc", &bytes);
+                        let d = m::pe_decode(e, &bytes, env.le, pos, &b, env.addr_size).and_then(|(p, _)| p.direct());
+                        Insn::SetLoc(d)
+                    }
+                }
+            }
+            Ins::Offset(rg, o) => {
+                op(a, 0x80 | (rg & 0x3f));
+                a.f_uleb(FieldKind::Uleb, "offset", *o);
+                Insn::Offset { reg: (rg & 0x3f) as u16, off: *o }
+            }
+            Ins::OffsetExtended(rg, o) => {
+                op(a, 0x05);
+                a.uleb(*rg);
+                a.uleb(*o);
+                Insn::Offset { reg: r!(*rg), off: *o }
+            }
+            Ins::OffsetExtendedSf(rg, o) => {
+                op(a, 0x11);
+                a.uleb(*rg);
+                a.sleb(*o);
+                Insn::OffsetSf { reg: r!(*rg), off: *o }
+            }
+            Ins::Restore(rg) => {
+                op(a, 0xc0 | (rg & 0x3f));
+                Insn::Restore((rg & 0x3f) as u16)
+            }
+            Ins::RestoreExtended(rg) => {
+                op(a, 0x06);
+                a.uleb(*rg);
+                Insn::Restore(r!(*rg))
+            }
+            Ins::Undefined(rg) => {
+                op(a, 0x07);
+                a.uleb(*rg);
+                Insn::Undefined(r!(*rg))
+            }
+            Ins::SameValue(rg) => {
+                op(a, 0x08);
+                a.uleb(*rg);
+                Insn::SameValue(r!(*rg))
+            }
+            Ins::Register(d, s) => {
+                op(a, 0x09);
+                a.uleb(*d);
+                a.uleb(*s);
+                let d = r!(*d);
+                Insn::Register { dst: d, src: r!(*s) }
+            }
+            Ins::RememberState => {
+                op(a, 0x0a);
+                Insn::RememberState
+            }
+            Ins::RestoreState => {
+                op(a, 0x0b);
+                Insn::RestoreState
+            }
+            Ins::DefCfa(rg, o) => {
+                op(a, 0x0c);
+                a.uleb(*rg);
+                a.uleb(*o);
+                Insn::DefCfa { reg: r!(*rg), off: *o }
+            }
+            Ins::DefCfaSf(rg, o) => {
+                op(a, 0x12);
+                a.uleb(*rg);
+                a.sleb(*o);
+                Insn::DefCfaSf { reg: r!(*rg), off: *o }
+            }
+            Ins::DefCfaRegister(rg) => {
+                op(a, 0x0d);
+                a.uleb(*rg);
+                Insn::DefCfaRegister(r!(*rg))
+            }
+            Ins::DefCfaOffset(o) => {
+                op(a, 0x0e);
+                a.uleb(*o);
+                Insn::DefCfaOffset(*o)
+            }
+            Ins::DefCfaOffsetSf(o) => {
+                op(a, 0x13);
+                a.sleb(*o);
+                Insn::DefCfaOffsetSf(*o)
+            }
+            Ins::DefCfaExpression(e) => {
+                op(a, 0x0f);
+                a.f_uleb(FieldKind::Length, "expr_len", e.len() as u64);
+                let off = a.len() as u64;
+                a.bytes(e);
+                Insn::DefCfaExpression { off, len: e.len() as u64 }
+            }
+            Ins::Expression(rg, e) => {
+                op(a, 0x10);
+                a.uleb(*rg);
+                a.f_uleb(FieldKind::Length, "expr_len", e.len() as u64);
+                let off = a.len() as u64;
+                a.bytes(e);
+                Insn::Expression { reg: r!(*rg), off, len: e.len() as u64 }
+            }
+            Ins::ValExpression(rg, e) => {
+                op(a, 0x16);
+                a.uleb(*rg);
+                a.f_uleb(FieldKind::Length, "expr_len", e.len() as u64);
+                let off = a.len() as u64;
+                a.bytes(e);
+                Insn::ValExpression { reg: r!(*rg), off, len: e.len() as u64 }
+            }
+            Ins::ValOffset(rg, o) => {
+                op(a, 0x14);
+                a.uleb(*rg);
+                a.uleb(*o);
+                Insn::ValOffset { reg: r!(*rg), off: *o }
+            }
+            Ins::ValOffsetSf(rg, o) => {
+                op(a, 0x15);
+                a.uleb(*rg);
+                a.sleb(*o);
+                Insn::ValOffsetSf { reg: r!(*rg), off: *o }
+            }
+            Ins::ArgsSize(s) => {
+                op(a, 0x2e);
+                a.uleb(*s);
+                Insn::ArgsSize(*s)
+            }
+            Ins::NegateRaState => {
+                op(a, 0x2d);
+                if env.aarch64 {
+                    Insn::NegateRaState
+                } else {
+                    Insn::Invalid(CfiError::UnknownInstruction(0x2d))
+                }
+            }
+            Ins::Nop => {
+                op(a, 0x00);
+                Insn::Nop
+            }
+            Ins::Raw { bytes, expect } => {
+                a.bytes(bytes);
+                Insn::Invalid(expect.clone())
+            }
+        }
+    }
+
+    /// The instruction that opcode byte `b` starts, with operands taken from `x`, `y`
+    /// (register / unsigned operand / signed operand as the opcode needs).  Bytes that are
+    /// not a DW_CFA opcode become `Raw` with the `UnknownInstruction` expectation.
+    pub fn for_opcode_byte(b: u8, x: u64, y: u64) -> Ins {
+        match b >> 6 {
+            1 => return Ins::AdvanceLoc(b & 0x3f),
+            2 => return Ins::Offset(b & 0x3f, y),
+            3 => return Ins::Restore(b & 0x3f),
+            _ => {}
+        }
+        match b {
+            0x00 => Ins::Nop,
+            0x01 => Ins::SetLoc(y),
+            0x02 => Ins::AdvanceLoc1(y as u8),
+            0x03 => Ins::AdvanceLoc2(y as u16),
+            0x04 => Ins::AdvanceLoc4(y as u32),
+            0x05 => Ins::OffsetExtended(x, y),
+            0x06 => Ins::RestoreExtended(x),
+            0x07 => Ins::Undefined(x),
+            0x08 => Ins::SameValue(x),
+            0x09 => Ins::Register(x, y & 0xffff),
+            0x0a => Ins::RememberState,
+            0x0b => Ins::RestoreState,
+            0x0c => Ins::DefCfa(x, y),
+            0x0d => Ins::DefCfaRegister(x),
+            0x0e => Ins::DefCfaOffset(y),
+            0x0f => Ins::DefCfaExpression(vec![0x96; (y % 5) as usize]),
+            0x10 => Ins::Expression(x, vec![0x96; (y % 5) as usize]),
+            0x11 => Ins::OffsetExtendedSf(x, y as i64),
+            0x12 => Ins::DefCfaSf(x, y as i64),
+            0x13 => Ins::DefCfaOffsetSf(y as i64),
+            0x14 => Ins::ValOffset(x, y),
+            0x15 => Ins::ValOffsetSf(x, y as i64),
+            0x16 => Ins::ValExpression(x, vec![0x96; (y % 5) as usize]),
+            0x2d => Ins::NegateRaState,
+            0x2e => Ins::ArgsSize(y),
+            _ => Ins::Raw { bytes: vec![b, x as u8, y as u8], expect: CfiError::UnknownInstruction(b) },
+        }
+    }
+}
+
+// ---------------------------------------------------------------- section specs
+
+#[derive(Clone, Copy, Debug, PartialEq, Eq)]
+pub enum Kind {
+    DebugFrame,
+    EhFrame,
+}
+
+#[derive(Clone, Debug)]
+pub struct CieSpec {
+    pub fmt64: bool,
+    pub version: u8,
+    /// raw augmentation string (without the NUL)
+    pub aug: Vec<u8>,
+    /// `.debug_frame` version 4 only
+    pub v4_addr_size: u8,
+    pub v4_seg_size: u8,
+    pub code_align: u64,
+    pub data_align: i64,
+    /// u8 for version 1, ULEB128 otherwise
+    pub ra: u64,
+    pub lsda_enc: u8,
+    pub pers_enc: u8,
+    /// personality target address (encoded under `pers_enc` when representable, else raw)
+    pub pers_target: u64,
+    pub fde_enc: u8,
+    /// extra bytes appended to the augmentation data (covered by its length)
+    pub aug_pad: usize,
+    pub insns: Vec<Ins>,
+    pub pad_nops: usize,
+}
+
+impl Default for CieSpec {
+    fn default() -> Self {
+        CieSpec {
+            fmt64: false,
+            version: 1,
+            aug: vec![],
+            v4_addr_size: 8,
+            v4_seg_size: 0,
+            code_align: 1,
+            data_align: 1,
+            ra: 16,
+            lsda_enc: 0,
+            pers_enc: 0,
+            pers_target: 0,
+            fde_enc: 0,
+            aug_pad: 0,
+            insns: vec![],
+            pad_nops: 0,
+        }
+    }
+}
+
+#[derive(Clone, Debug, Default)]
+pub struct FdeSpec {
+    /// index (into `SectionSpec::items`) of the CIE item
+    pub cie: usize,
+    pub fmt64: bool,
+    pub initial: u64,
+    pub range: u64,
+    pub lsda_target: u64,
+    pub aug_pad: usize,
+    pub insns: Vec<Ins>,
+    pub pad_nops: usize,
+}
+
+#[derive(Clone, Debug)]
+pub enum Item {
+    Cie(CieSpec),
+    Fde(FdeSpec),
+    /// an entry of length 0: terminator in `.eh_frame`, skipped in `.debug_frame`
+    ZeroLength { fmt64: bool },
+    /// bytes that nothing may read (after a terminator)
+    Junk(Vec<u8>),
+}
+
+#[derive(Clone, Debug)]
+pub struct SectionSpec {
+    pub kind: Kind,
+    pub le: bool,
+    /// address size given to the section (`set_address_size`); v4 `.debug_frame` CIEs override
+    pub addr_size: u8,
+    pub aarch64: bool,
+    /// bases for pointers in this section (`func` is ignored: it is per FDE)
+    pub bases: Bases,
+    /// when true, `pers_target`, `FdeSpec::initial` (under an 'R' encoding) and `lsda_target`
+    /// are emitted as raw format values instead of being solved for the base
+    pub raw_pointers: bool,
+    pub items: Vec<Item>,
+}
+
+// ---------------------------------------------------------------- entry models
+
+#[derive(Clone, Debug)]
+pub struct CieModel {
+    pub item: usize,
+    pub offset: u64,
+    /// value of the length field
+    pub length: u64,
+    pub fmt64: bool,
+    pub version: u8,
+    pub aug: Vec<u8>,
+    pub addr_size: u8,
+    pub code_align: u64,
+    pub data_align: i64,
+    pub ra: u64,
+    pub lsda_enc: Option<u8>,
+    pub personality: Option<(u8, Result<Ptr, PeErr>)>,
+    pub fde_enc: Option<u8>,
+    pub signal: bool,
+    /// error that parsing this CIE must report (malformed augmentation, bad encoding byte...)
+    pub parse_error: Option<CieParseError>,
+    pub insn_off: u64,
+    pub insn_len: u64,
+    /// model instructions incl. padding nops
+    pub insns: Vec<Insn>,
+}
+
+#[derive(Clone, Debug, PartialEq, Eq)]
+pub enum CieParseError {
+    UnknownVersion(u8),
+    UnknownAugmentation,
+    Pe(PeErr),
+    UnsupportedRegister(u64),
+    UnsupportedSegmentSize(u8),
+    UnsupportedAddressSize(u8),
+}
+
+#[derive(Clone, Debug)]
+pub struct FdeModel {
+    pub item: usize,
+    pub offset: u64,
+    pub length: u64,
+    pub fmt64: bool,
+    /// index into `Built::entries` of the CIE
+    pub cie_entry: usize,
+    pub cie_offset: u64,
+    /// decoded initial address (or the error parsing this FDE must report)
+    pub initial: Result<u64, PeErr>,
+    /// the range value as read (raw, sign-extended for signed formats)
+    pub range: u64,
+    pub end: u64,
+    pub lsda: Option<Result<Ptr, PeErr>>,
+    pub insn_off: u64,
+    pub insn_len: u64,
+    pub insns: Vec<Insn>,
+}
+
+#[derive(Clone, Debug)]
+pub enum Entry {
+    Cie(CieModel),
+    Fde(FdeModel),
+}
+
+impl Entry {
+    pub fn offset(&self) -> u64 {
+        match self {
+            Entry::Cie(c) => c.offset,
+            Entry::Fde(f) => f.offset,
+        }
+    }
+}
+
+#[derive(Clone, Debug)]
+pub struct Built {
+    pub bytes: Vec<u8>,
+    pub fields: Vec<Field>,
+    /// every CIE / FDE in file order (zero-length entries and junk are not entries)
+    pub entries: Vec<Entry>,
+    /// number of leading `entries` that iteration reaches (entries behind an `.eh_frame`
+    /// terminator are not reached)
+    pub reachable: usize,
+}
+
+impl Built {
+    pub fn cie_of(&self, f: &FdeModel) -> &CieModel {
+        match &self.entries[f.cie_entry] {
+            Entry::Cie(c) => c,
+            _ => unreachable!("fde.cie_entry designates a CIE"),
+        }
+    }
+    /// The row-interpreter program of the FDE at `entries[idx]` (None if it is not an FDE or
+    /// its addresses do not decode).
+    pub fn program(&self, idx: usize) -> Option<m::Program<'_>> {
+        let Entry::Fde(f) = self.entries.get(idx)? else { return None };
+        let c = self.cie_of(f);
+        let initial = f.initial.clone().ok()?;
+        Some(m::Program { cie: &c.insns, fde: &f.insns, code_align: c.code_align, data_align: c.data_align, addr_size: c.addr_size, initial, end: f.end })
+    }
+    pub fn fdes(&self) -> impl Iterator<Item = (usize, &FdeModel)> {
+        self.entries.iter().enumerate().filter_map(|(i, e)| match e {
+            Entry::Fde(f) => Some((i, f)),
+            _ => None,
+        })
+    }
+}
+
+fn begin_entry(a: &mut Asm, fmt64: bool) -> crate::asm::LengthMark {
+    a.begin_length(fmt64)
+}
+
+/// Assemble the section.
+pub fn build(spec: &SectionSpec) -> Built {
+    let mut a = Asm::new(spec.le);
+    let mut entries: Vec<Entry> = vec![];
+    // item index -> entry index
+    let mut item_entry: Vec<Option<usize>> = vec![None; spec.items.len()];
+    // (offset of pointer field, width, fde entry index, cie item) to patch once offsets are known
+    let mut patches: Vec<(usize, usize, usize, usize)> = vec![];
+    let mut reachable: Option<usize> = None;
+    let eh = spec.kind == Kind::EhFrame;
+
+    // first pass needs CIE models of *earlier* items for FDE encoding; forward references
+    // (debug_frame only) are resolved by pre-scanning the CIE specs for what an FDE needs.
+    let cie_info = |idx: usize| -> Option<(&CieSpec, u8)> {
+        match spec.items.get(idx) {
+            Some(Item::Cie(c)) => {
+                let asz = if !eh && c.version == 4 { c.v4_addr_size } else { spec.addr_size };
+                Some((c, asz))
+            }
+            _ => None,
+        }
+    };
+
+    for (ii, item) in spec.items.iter().enumerate() {
+        match item {
+            Item::ZeroLength { fmt64 } => {
+                if *fmt64 {
+                    a.u32(0xffff_ffff);
+                    a.u64(0);
+                } else {
+                    a.f_uint(FieldKind::Length, "zero_length", 4, 0);
+                }
+                if eh && reachable.is_none() {
+                    reachable = Some(entries.len());
+                }
+            }
+            Item::Junk(b) => {
+                a.bytes(b);
+            }
+            Item::Cie(c) => {
+                let offset = a.len() as u64;
+                let mark = begin_entry(&mut a, c.fmt64);
+                let id_w = if !eh && c.fmt64 { 8 } else { 4 };
+                a.f_uint(FieldKind::Offset, "cie_id", id_w, if eh { 0 } else { u64::MAX });
+                a.f_uint(FieldKind::Version, "cie_version", 1, c.version as u64);
+                let mut s = c.aug.clone();
+                s.push(0);
+                a.f_bytes(FieldKind::Str, "augmentation", &s);
+                let mut parse_error = None;
+                if !matches!(c.version, 1 | 3 | 4) {
+                    parse_error = Some(CieParseError::UnknownVersion(c.version));
+                }
+                let addr_size = if !eh && c.version == 4 {
+                    a.f_uint(FieldKind::Size, "address_size", 1, c.v4_addr_size as u64);
+                    a.f_uint(FieldKind::Size, "segment_size", 1, c.v4_seg_size as u64);
+                    if !matches!(c.v4_addr_size, 1 | 2 | 4 | 8) {
+                        parse_error = Some(CieParseError::UnsupportedAddressSize(c.v4_addr_size));
+                    } else if c.v4_seg_size != 0 {
+                        parse_error = Some(CieParseError::UnsupportedSegmentSize(c.v4_seg_size));
+                    }
+                    c.v4_addr_size
+                } else {
+                    spec.addr_size
+                };
+                a.f_uleb(FieldKind::Uleb, "code_align", c.code_align);
+                a.f_sleb(FieldKind::Sleb, "data_align", c.data_align);
+                if c.version == 1 {
+                    a.f_uint(FieldKind::Other, "return_register", 1, c.ra);
+                } else {
+                    a.f_uleb(FieldKind::Uleb, "return_register", c.ra);
+                    if c.ra > 0xffff && parse_error.is_none() {
+                        parse_error = Some(CieParseError::UnsupportedRegister(c.ra));
+                    }
+                }
+                let ra = if c.version == 1 { c.ra & 0xff } else { c.ra };
+                // augmentation data, in the order of the string
+                let mut lsda_enc = None;
+                let mut personality = None;
+                let mut fde_enc = None;
+                let mut signal = false;
+                if !c.aug.is_empty() {
+                    let has_z = c.aug[0] == b'z';
+                    // The data is assembled separately because its length precedes it and
+                    // pcrel fields depend on their position: guess the size of the length
+                    // field, assemble, and retry with the real size if the guess was wrong.
+                    let mut len_len = 1usize;
+                    for _ in 0..3 {
+                        let data_pos = a.len() + if has_z { len_len } else { 0 };
+                        let mut d = Asm::new(spec.le);
+                        lsda_enc = None;
+                        personality = None;
+                        fde_enc = None;
+                        signal = false;
+                        let mut perr = None;
+                        let mut seen_first = false;
+                        for ch in c.aug.iter() {
+                            if perr.is_some() {
+                                break;
+                            }
+                            match ch {
+                                b'z' => {
+                                    if seen_first {
+                                        perr = Some(CieParseError::UnknownAugmentation);
+                                    }
+                                }
+                                b'L' => {
+                                    if !has_z {
+                                        perr = Some(CieParseError::UnknownAugmentation);
+                                    } else {
+                                        d.f_uint(FieldKind::Form, "lsda_encoding", 1, c.lsda_enc as u64);
+                                        if !m::pe_is_valid(c.lsda_enc) {
+                                            perr = Some(CieParseError::Pe(PeErr::Unknown(c.lsda_enc)));
+                                        } else {
+                                            lsda_enc = Some(c.lsda_enc);
+                                        }
+                                    }
+                                }
+                                b'P' => {
+                                    if !has_z {
+                                        perr = Some(CieParseError::UnknownAugmentation);
+                                    } else {
+                                        d.f_uint(FieldKind::Form, "personality_encoding", 1, c.pers_enc as u64);
+                                        let pos = (data_pos + d.len()) as u64;
+                                        let b = Bases { func: None, ..spec.bases };
+                                        let bytes = encode_ptr(spec.raw_pointers, c.pers_enc, c.pers_target, spec.le, pos, &b, addr_size);
+                                        d.f_bytes(FieldKind::Address, "personality", &bytes);
+                                        match m::pe_decode(c.pers_enc, &bytes, spec.le, pos, &b, addr_size) {
+                                            Ok((p, _)) => personality = Some((c.pers_enc, Ok(p))),
+                                            Err(e) => {
+                                                personality = Some((c.pers_enc, Err(e.clone())));
+                                                perr = Some(CieParseError::Pe(e));
+                                            }
+                                        }
+                                    }
+                                }
+                                b'R' => {
+                                    if !has_z {
+                                        perr = Some(CieParseError::UnknownAugmentation);
+                                    } else {
+                                        d.f_uint(FieldKind::Form, "fde_encoding", 1, c.fde_enc as u64);
+                                        if !m::pe_is_valid(c.fde_enc) {
+                                            perr = Some(CieParseError::Pe(PeErr::Unknown(c.fde_enc)));
+                                        } else {
+                                            fde_enc = Some(c.fde_enc);
+                                        }
+                                    }
+                                }
+                                b'S' => signal = true,
+                                _ => perr = Some(CieParseError::UnknownAugmentation),
+                            }
+                            seen_first = true;
+                        }
+                        if has_z {
+                            for _ in 0..c.aug_pad {
+                                d.u8(0xee);
+                            }
+                        }
+                        let need = uleb_bytes(d.len() as u64).len();
+                        if has_z && need != len_len {
+                            len_len = need;
+                            continue;
+                        }
+                        if has_z {
+                            a.f_uleb(FieldKind::Length, "aug_length", d.len() as u64);
+                        }
+                        let shift = a.len();
+                        a.bytes(&d.buf);
+                        for f in d.fields {
+                            a.fields.push(Field { off: f.off + shift, ..f });
+                        }
+                        if parse_error.is_none() {
+                            parse_error = perr;
+                        }
+                        break;
+                    }
+                }
+                let insn_off = a.len() as u64;
+                let env = EmitEnv { in_fde: false, fde_enc: None, addr_size, le: spec.le, bases: spec.bases, aarch64: spec.aarch64 };
+                let mut insns = vec![];
+                for i in &c.insns {
+                    insns.push(i.emit(&mut a, &env));
+                }
+                for _ in 0..c.pad_nops {
+                    a.u8(0);
+                    insns.push(Insn::Nop);
+                }
+                let insn_len = a.len() as u64 - insn_off;
+                a.end_length(mark);
+                let length = a.len() as u64 - mark.body as u64;
+                item_entry[ii] = Some(entries.len());
+                entries.push(Entry::Cie(CieModel {
+                    item: ii,
+                    offset,
+                    length,
+                    fmt64: c.fmt64,
+                    version: c.version,
+                    aug: c.aug.clone(),
+                    addr_size,
+                    code_align: c.code_align,
+                    data_align: c.data_align,
+                    ra,
+                    lsda_enc,
+                    personality,
+                    fde_enc,
+                    signal,
+                    parse_error,
+                    insn_off,
+                    insn_len,
+                    insns,
+                }));
+            }
+            Item::Fde(f) => {
+                let (c, addr_size) = cie_info(f.cie).expect("FdeSpec.cie must designate a Cie item");
+                let has_z = c.aug.first() == Some(&b'z');
+                let r_enc = if has_z && c.aug.contains(&b'R') { Some(c.fde_enc) } else { None };
+                let l_enc = if has_z && c.aug.contains(&b'L') { Some(c.lsda_enc) } else { None };
+                let offset = a.len() as u64;
+                let mark = begin_entry(&mut a, f.fmt64);
+                let ptr_w = if !eh && f.fmt64 { 8 } else { 4 };
+                let ptr_off = a.len();
+                a.f_uint(FieldKind::Offset, "cie_pointer", ptr_w, 0);
+                patches.push((ptr_off, ptr_w, entries.len(), f.cie));
+                let mask = addr_mask(addr_size);
+                let bases0 = Bases { func: None, ..spec.bases };
+                let (initial, range) = match r_enc {
+                    None => {
+                        a.f_uint(FieldKind::Address, "initial_location", (addr_size as usize).min(8), f.initial);
+                        a.f_uint(FieldKind::Size, "address_range", (addr_size as usize).min(8), f.range);
+                        (Ok(f.initial & mask), f.range & mask)
+                    }
+                    Some(e) => {
+                        let pos = a.len() as u64;
+                        let bytes = encode_ptr(spec.raw_pointers, e, f.initial, spec.le, pos, &bases0, addr_size);
+                        a.f_bytes(FieldKind::Address, "initial_location", &bytes);
+                        let init = m::pe_decode(e, &bytes, spec.le, pos, &bases0, addr_size).map(|(p, _)| p.value());
+                        let rb = pe_encode_raw(e, f.range, spec.le, addr_size);
+                        a.f_bytes(FieldKind::Size, "address_range", &rb);
+                        let range = if init.is_ok() { m::pe_read_value(e, &rb, spec.le, addr_size).map(|(v, _)| v).unwrap_or(0) } else { 0 };
+                        (init, range)
+                    }
+                };
+                let end = initial.clone().map(|i| i.wrapping_add(range) & mask).unwrap_or(0);
+                let mut lsda = None;
+                if !c.aug.is_empty() {
+                    // augmentation data: length, LSDA pointer if 'L', padding
+                    let b = Bases { func: initial.clone().ok(), ..spec.bases };
+                    // the LSDA position depends on the length of the length field: the
+                    // pointer is assembled for pos = after a one-byte length (data < 128 bytes)
+                    let pos = a.len() as u64 + 1;
+                    let lbytes = match l_enc {
+                        Some(e) => encode_ptr(spec.raw_pointers, e, f.lsda_target, spec.le, pos, &b, addr_size),
+                        None => vec![],
+                    };
+                    let total = lbytes.len() + f.aug_pad;
+                    debug_assert!(total < 128);
+                    a.f_uleb(FieldKind::Length, "fde_aug_length", total as u64);
+                    if let Some(e) = l_enc {
+                        a.f_bytes(FieldKind::Address, "lsda", &lbytes);
+                        if initial.is_ok() {
+                            lsda = Some(m::pe_decode(e, &lbytes, spec.le, pos, &b, addr_size).map(|(p, _)| p));
+                        }
+                    }
+                    for _ in 0..f.aug_pad {
+                        a.u8(0xee);
+                    }
+                }
+                let insn_off = a.len() as u64;
+                let env = EmitEnv { in_fde: true, fde_enc: r_enc, addr_size, le: spec.le, bases: spec.bases, aarch64: spec.aarch64 };
+                let mut insns = vec![];
+                for i in &f.insns {
+                    insns.push(i.emit(&mut a, &env));
+                }
+                for _ in 0..f.pad_nops {
+                    a.u8(0);
+                    insns.push(Insn::Nop);
+                }
+                let insn_len = a.len() as u64 - insn_off;
+                a.end_length(mark);
+                let length = a.len() as u64 - mark.body as u64;
+                item_entry[ii] = Some(entries.len());
+                entries.push(Entry::Fde(FdeModel {
+                    item: ii,
+                    offset,
+                    length,
+                    fmt64: f.fmt64,
+                    cie_entry: usize::MAX,
+                    cie_offset: 0,
+                    initial,
+                    range,
+                    end,
+                    lsda,
+                    insn_off,
+                    insn_len,
+                    insns,
+                }));
+            }
+        }
+    }
+    // resolve CIE pointers
+    for (ptr_off, w, fde_entry, cie_item) in patches {
+        let ce = item_entry[cie_item].expect("cie item assembled");
+        let cie_offset = entries[ce].offset();
+        let v = if eh { (ptr_off as u64).wrapping_sub(cie_offset) } else { cie_offset };
+        a.patch_uint(ptr_off, w, v);
+        if let Entry::Fde(f) = &mut entries[fde_entry] {
+            f.cie_entry = ce;
+            f.cie_offset = cie_offset;
+        }
+    }
+    let reachable = reachable.unwrap_or(entries.len());
+    Built { bytes: a.buf, fields: a.fields, entries, reachable }
+}
+
+// ---------------------------------------------------------------- .eh_frame_hdr
+
+#[derive(Clone, Debug)]
+pub struct HdrSpec {
+    pub le: bool,
+    pub addr_size: u8,
+    pub version: u8,
+    pub eh_frame_ptr_enc: u8,
+    pub fde_count_enc: u8,
+    pub table_enc: u8,
+    /// address of the `.eh_frame` section
+    pub eh_frame_addr: u64,
+    /// (initial location, address of the FDE) pairs; sorted by the builder
+    pub entries: Vec<(u64, u64)>,
+    /// bases for pointers inside `.eh_frame_hdr` (section = data = address of the header)
+    pub bases: Bases,
+}
+
+#[derive(Clone, Debug)]
+pub struct HdrBuilt {
+    pub bytes: Vec<u8>,
+    pub fields: Vec<Field>,
+    /// decoded eh_frame_ptr (or the error `parse` must report)
+    pub eh_frame_ptr: Result<Ptr, PeErr>,
+    /// error for the fde_count field (`Unsupported` when the encoding is not a pure format)
+    pub count_error: Option<PeErr>,
+    /// fde_count as decoded (0 when either encoding is omit)
+    pub fde_count: u64,
+    /// decoded table, in table order: (initial, fde address), None if an entry fails to decode
+    pub table: Vec<Result<(Ptr, Ptr), PeErr>>,
+    /// true when every target was representable, so the decoded table equals `spec.entries` sorted
+    pub exact: bool,
+}
+
+pub fn build_hdr(spec: &HdrSpec) -> HdrBuilt {
+    let mut a = Asm::new(spec.le);
+    let b = Bases { func: None, ..spec.bases };
+    a.f_uint(FieldKind::Version, "hdr_version", 1, spec.version as u64);
+    a.f_uint(FieldKind::Form, "eh_frame_ptr_enc", 1, spec.eh_frame_ptr_enc as u64);
+    a.f_uint(FieldKind::Form, "fde_count_enc", 1, spec.fde_count_enc as u64);
+    a.f_uint(FieldKind::Form, "table_enc", 1, spec.table_enc as u64);
+    let mut exact = true;
+    let pos = a.len() as u64;
+    let bytes = match pe_encode_target(spec.eh_frame_ptr_enc, spec.eh_frame_addr, spec.le, pos, &b, spec.addr_size) {
+        Some(x) => x,
+        None => {
+            exact = false;
+            pe_encode_raw(spec.eh_frame_ptr_enc, spec.eh_frame_addr, spec.le, spec.addr_size)
+        }
+    };
+    a.f_bytes(FieldKind::Address, "eh_frame_ptr", &bytes);
+    let eh_frame_ptr = m::pe_decode(spec.eh_frame_ptr_enc, &bytes, spec.le, pos, &b, spec.addr_size).map(|(p, _)| p);
+    let mut entries = spec.entries.clone();
+    entries.sort();
+    let mut count_error = None;
+    let mut fde_count = 0u64;
+    if spec.fde_count_enc != m::PE_OMIT && spec.table_enc != m::PE_OMIT {
+        if spec.fde_count_enc & 0xf0 != 0 {
+            count_error = Some(PeErr::Unsupported(spec.fde_count_enc));
+        }
+        let cb = pe_encode_raw(spec.fde_count_enc, entries.len() as u64, spec.le, spec.addr_size);
+        a.f_bytes(FieldKind::Count, "fde_count", &cb);
+        fde_count = m::pe_read_value(spec.fde_count_enc, &cb, spec.le, spec.addr_size).map(|(v, _)| v).unwrap_or(0);
+    }
+    let mut table = vec![];
+    if spec.table_enc != m::PE_OMIT {
+        for (init, fde) in &entries {
+            let mut one = |a: &mut Asm, target: u64, name: &'static str| -> Result<Ptr, PeErr> {
+                let pos = a.len() as u64;
+                let bytes = match pe_encode_target(spec.table_enc, target, spec.le, pos, &b, spec.addr_size) {
+                    Some(x) => x,
+                    None => {
+                        exact = false;
+                        pe_encode_raw(spec.table_enc, target, spec.le, spec.addr_size)
+                    }
+                };
+                a.f_bytes(FieldKind::Address, name, &bytes);
+                m::pe_decode(spec.table_enc, &bytes, spec.le, pos, &b, spec.addr_size).map(|(p, _)| p)
+            };
+            let i = one(&mut a, *init, "table_initial");
+            let f = one(&mut a, *fde, "table_fde");
+            table.push(match (i, f) {
+                (Ok(i), Ok(f)) => Ok((i, f)),
+                (Err(e), _) | (_, Err(e)) => Err(e),
+            });
+        }
+    }
+    HdrBuilt { bytes: a.buf, fields: a.fields, eh_frame_ptr, count_error, fde_count, table, exact }
+}
+
+// small helpers shared by the property modules
+
+pub fn uleb_len(v: u64) -> usize {
+    uleb_bytes(v).len()
+}
+pub fn sleb_len(v: i64) -> usize {
+    sleb_bytes(v).len()
+}
